@@ -16,7 +16,7 @@ RULE = ("explicit-state BFS to fixpoint: transitions are real DrawSet.add/remove
         "elements) over universes of 3 and 4 (quick) / 3, 4 and 5 (thorough) edge tuples; in every state len, iteration, "
         "membership and every RNG resolution of draw() are compared with a plain set; a state is "
         "non-trivial when it is a distinct ordered arrangement with >= 2 members")
-BOUNDS = {"quick": "universes of 3 and of 4 elements, full reachable state space (fixpoint)",
+BOUNDS = {"quick": "universes of 3, 3 and 4 elements (two of them containing a pair and its reversal), full reachable state space (fixpoint)",
           "thorough": "universe of 4 and of 5 elements, full reachable state space (fixpoint)"}
 ASSUMPTIONS = ["elements are hashable tuples, as in rewire(); draw() on an empty set and the exception type "
                "of remove(absent) are unspecified by the property and not checked",
@@ -25,11 +25,13 @@ ASSUMPTIONS = ["elements are hashable tuples, as in rewire(); draw() on an empty
 
 def instances(tier, seed):
     yield {"universe": [(0, 1), (0, 2), (1, 2)]}
+    # a pair and its reversal are different elements
+    yield {"universe": [(0, 1), (1, 0), (0, 2)]}
     if tier == "quick":
-        yield {"universe": [(0, 1), (0, 2), (1, 2), (2, 3)]}
+        yield {"universe": [(0, 1), (0, 2), (1, 2), (2, 1)]}
     else:
-        yield {"universe": [(0, 1), (0, 2), (1, 2), (2, 3)]}
-        yield {"universe": [(1, 2), (0, 5), (3, 4), (0, 1), (2, 5)]}
+        yield {"universe": [(0, 1), (0, 2), (1, 2), (2, 1)]}
+        yield {"universe": [(1, 2), (0, 5), (3, 4), (2, 1), (5, 0)]}
 
 
 def canon(s):
